@@ -29,6 +29,9 @@ def explore(ctx, art):
         lines.append("serve udp %d %d %d %d" % (rng.randrange(1 << 30), rng.choice([2, 3, 4]), rng.choice([1, 2, 4]), 30 if thorough else 15))
         lines.append("serve tcp %d %d %d %d" % (rng.randrange(1 << 30), rng.choice([2, 3, 4]), rng.choice([1, 2, 4]), 30 if thorough else 15))
         lines.append("serve dtls %d %d %d %d" % (rng.randrange(1 << 30), rng.choice([2, 3]), rng.choice([1, 2, 3]), 20 if thorough else 10))
+    # one peer's burst of well-formed requests to a slow resource (handler 150 ms) while a second peer asks for a fast one
+    lines.append("serve udpbacklog 0 150 40 0")
+    lines.append("serve udpbacklog 0 150 8 0")      # below the receive-queue size: the second peer must be served at once
     for n in ([0, 1, 3, 5] if thorough else [0, 3]):
         lines.append("discover %d" % n)
     for n in ([1, 2, 4] if thorough else [1, 3]):
@@ -54,6 +57,9 @@ def explore(ctx, art):
             continue
         if judge is not None and not judge[i].startswith("ok"):
             kind = l.split()[0] + ("-" + l.split()[1] if l.startswith("serve") else "")
+            if l.startswith("serve udpbacklog"):
+                # receive queue of a connection: 16 messages (+1 in the handler); a burst within it must never delay others
+                kind += ":over-queue" if int(l.split()[4]) > 17 else ":within-queue"
             ctx.violations.append(common.Violation("serves-and-isolates", "C10:%s" % kind, "%s: observed `%s`: %s" % (l, o, judge[i]),
                                                    {"input": [l], "observed": o, "judge": judge[i]}))
         if model is not None and model[i] != "n/a" and model[i] != o:
